@@ -1397,9 +1397,12 @@ func (r *Raft) InstallSnapshot(
 
 	r.lastContact = time.Now()
 
-	// The received snapshot does not contain anything new.
+	// The received snapshot does not contain anything new. Acknowledge the request so that the
+	// leader does not send the snapshot over and over again but continues with the entries that
+	// follow it.
 	if r.lastIncludedIndex >= request.LastIncludedIndex ||
 		r.lastApplied >= request.LastIncludedIndex {
+		response.BytesWritten = request.Offset
 		return nil
 	}
 
